@@ -396,7 +396,12 @@ def topological_sort(nodes):
         node = nodes[index]
         for dep in node.dependencies():
             dep = enumerator_owners.get(dep, dep)
-            if dep != node.name and dep not in known and dep in available:
+            if dep == node.name:
+                if isinstance(node, Enum):
+                    """ enumerators may refer to earlier enumerators of the same enum """
+                    continue
+                raise ModelError("Definition '%s' depends on itself (cyclic definitions)." % node.name)
+            if dep not in known and dep in available:
                 found_index = find_first_dep(dep, index + 1)
                 if found_index:
                     nodes.insert(index, nodes.pop(found_index))
